@@ -255,6 +255,11 @@ func RenderPos(in *Intent, indent string) (string, []posRec) {
 					kw = "!table"
 				}
 				r.mark(1, "type "+appKey(a.Name)+"."+unesc(td.Name))
+				if len(td.Fields) == 0 && len(td.Meta.Annos) == 0 {
+					// a declaration without a body: the '...' placeholder form
+					r.line(1, kw+" "+td.Name+renderMetaInline(td.Meta)+": ...")
+					continue
+				}
 				r.line(1, kw+" "+td.Name+renderMetaInline(td.Meta)+":")
 				r.annos(2, td.Meta)
 				for _, f := range td.Fields {
